@@ -12,7 +12,7 @@ EXPORT_DIR = os.path.join(vlib.CACHE, "export_c04")
 
 
 def ts_name(d):
-    return d["rename"] if d["rename"] is not None else d["ident"]
+    return d["rename"] if d["rename"] is not None else d["ident"].replace("r#", "")
 
 
 def run(ctx):
